@@ -69,20 +69,20 @@ type ReplayFile struct {
 
 // WorkerOut is what a worker process reports to the driver.
 type WorkerOut struct {
-	Property   string           `json:"property"`
-	Worker     int              `json:"worker"`
-	Seed       uint64           `json:"seed"`
-	Seeds      []uint64         `json:"rapid_seeds"`
-	WallS      float64          `json:"wall_s"`
-	Stats      *Stats           `json:"stats"`
-	Violations []Violation      `json:"violations,omitempty"`
-	Replays    []string         `json:"replays,omitempty"`
+	Property   string      `json:"property"`
+	Worker     int         `json:"worker"`
+	Seed       uint64      `json:"seed"`
+	Seeds      []uint64    `json:"rapid_seeds"`
+	WallS      float64     `json:"wall_s"`
+	Stats      *Stats      `json:"stats"`
+	Violations []Violation `json:"violations,omitempty"`
+	Replays    []string    `json:"replays,omitempty"`
 	// OrigReplays: for each violation, the case as it was first drawn (before rapid shrank it); "" when
 	// that is the reported case. A failure that depends on what the same process ran before - state the
 	// engine keeps per process - shrinks to a case that does not fail on its own; the original may.
-	OrigReplays []string `json:"orig_replays,omitempty"`
-	HarnessErr []string         `json:"harness_errors,omitempty"`
-	KnownHits  map[string]int64 `json:"known_hits,omitempty"`
+	OrigReplays []string         `json:"orig_replays,omitempty"`
+	HarnessErr  []string         `json:"harness_errors,omitempty"`
+	KnownHits   map[string]int64 `json:"known_hits,omitempty"`
 }
 
 // KnownFinding is one entry of /verif/known_findings.json: a genuine defect of the engine that is
